@@ -9,24 +9,24 @@ def run(ctx):
     b = ctx.go_test_binary("fs/reader", "h_reader")
     if b:
         ctx.correspond(b, "TestVerifC01", "svdriver_c01", "c01reader",
-                       env={"VERIF_N": 45 if quick else 2500, "VERIF_RACES": 25 if quick else 2000},
+                       env={"VERIF_N": 45 if quick else 1200, "VERIF_RACES": 25 if quick else 800},
                        timeout=600 if quick else 3000)
     # layer level: orders of Verify / SkipVerify requests reaching one real layer object, reads
     # through the node API
     b = ctx.go_test_binary("fs/layer", "h_layer")
     if b:
         ctx.correspond(b, "TestVerifC01Layer", "svdriver_c01", "c01layer",
-                       env={"VERIF_N": 35 if quick else 2000}, timeout=600 if quick else 3000)
+                       env={"VERIF_N": 35 if quick else 800}, timeout=600 if quick else 3000)
     # filesystem level: the ladder of the real filesystem.Mount over the real layer.Resolver
     b = ctx.go_test_binary("fs", "h_fs")
     if b:
         ctx.correspond(b, "TestVerifC01Mount", "svdriver_c01", "c01mount",
-                       env={"VERIF_N": 20 if quick else 1500}, timeout=600 if quick else 3000)
+                       env={"VERIF_N": 20 if quick else 500}, timeout=600 if quick else 3000)
     # the db (bbolt) metadata store under the same reader-level scenarios
     b = ctx.go_test_binary("containerd-stargz-grpc/db", "h_db", module_dir="cmd")
     if b:
         ctx.correspond(b, "TestVerifC01DB", "svdriver_c01", "c01db",
-                       env={"VERIF_N": 12 if quick else 1200, "VERIF_RACES": 6 if quick else 600},
+                       env={"VERIF_N": 12 if quick else 350, "VERIF_RACES": 6 if quick else 150},
                        timeout=600 if quick else 3000)
     return ctx.finish(
         level="proof",
